@@ -370,12 +370,30 @@ var mergeFns = map[string]gedcom.MergeFunction{
 		return m
 	},
 	"never": func(l, r gedcom.Node, d *gedcom.Document) gedcom.Node { return nil },
+	// declines with a nil pointer of a concrete node type (a nil Node all the same: gedcom.IsNil)
+	"never-typed-nil": func(l, r gedcom.Node, d *gedcom.Document) gedcom.Node { var m *gedcom.SimpleNode; return m },
+	// merges only elements whose tags are equal and declines otherwise with a typed nil
+	"same-tag-typed-nil": func(l, r gedcom.Node, d *gedcom.Document) gedcom.Node {
+		if l.Tag().Tag() != r.Tag().Tag() {
+			var m *gedcom.NameNode
+			return m
+		}
+		m, err := gedcom.MergeNodes(l, r, d)
+		if err != nil {
+			return nil
+		}
+		return m
+	},
 }
-var fnNames = []string{"equality", "always", "never"}
+var fnNames = []string{"equality", "always", "never", "never-typed-nil", "same-tag-typed-nil"}
 
 func text(ns gedcom.Nodes) string {
 	var sb strings.Builder
 	for _, n := range ns {
+		if gedcom.IsNil(n) {
+			sb.WriteString("<nil>\n")
+			continue
+		}
 		sb.WriteString(n.GEDCOMString(0))
 	}
 	return sb.String()
@@ -417,7 +435,12 @@ func judgeSlices(ll, rl []int, fn string) (sig, what string) {
 	if len(res) < max || len(res) > len(L)+len(R) {
 		return "result-length-out-of-bounds", fmt.Sprintf("len=%d, want %d..%d\n%s", len(res), max, len(L)+len(R), show)
 	}
-	if fn == "never" && len(res) != len(L)+len(R) {
+	for _, e := range res {
+		if gedcom.IsNil(e) {
+			return "nil-element-in-result", show
+		}
+	}
+	if strings.HasPrefix(fn, "never") && len(res) != len(L)+len(R) {
 		return "never-merge-merged", show
 	}
 	if fn == "always" {
